@@ -136,6 +136,16 @@ class Report:
                     o.verdict = UNDECIDED
                     o.why = f"not decided - the analysis met values it does not model [{what}], so this mismatch may be the analyser's, not the code's. Finding as derived: {o.why}"
             self.notes.append(f"opaque values in analysed outcomes: {what}")
+        # hazards named by the interpreter (see terms.HAZARDS)
+        for (kind, what), why in sorted(T.HAZARDS.items()):
+            if kind == "ONESHOT":
+                # a defect whatever the property: state shared between calls that the first call destroys
+                self.rules.setdefault("ENGINE-ONESHOT", "no function on the analysed paths consumes a module-level one-shot iterator")
+                self.structural.add("ENGINE-ONESHOT")
+                self.obligations.append(Obligation("ENGINE-ONESHOT", what, what, VIOLATED, why, f"ENGINE-ONESHOT|{what}", {}))
+            elif kind == "CACHED" and not any(o.verdict == VIOLATED for o in self.obligations):
+                self.rules.setdefault("ENGINE-CACHED", "no memoised repository function is inlined unless a rule of this property judges the memoisation")
+                self.obligations.append(Obligation("ENGINE-CACHED", what, what, UNDECIDED, why, "", {}))
         known = load_known()
         viol = [o for o in self.obligations if o.verdict == VIOLATED]
         und = [o for o in self.obligations if o.verdict == UNDECIDED]
